@@ -135,8 +135,12 @@ Proof.
   all: try (
     (* cancel through the handle *)
     destruct (tstate_of s k) eqn:E; auto;
-    pose proof (maybe_close_inv _ (end_task_inv s k I)) as I3;
-    destruct (maybe_close (remove_handle (set_t s k TEnded) k)); exact I3).
+    destruct (oncancel_of s k) as [e|];
+    [ pose proof (finish_task_inv v s k (Beh 0 (ERaise e) None) I) as I2;
+      destruct (finish_task v s k (Beh 0 (ERaise e) None)) as [s2 o];
+      pose proof (maybe_close_inv s2 I2) as I3; destruct (maybe_close s2); exact I3
+    | pose proof (maybe_close_inv _ (end_task_inv s k I)) as I3;
+      destruct (maybe_close (remove_handle (set_t s k TEnded) k)); exact I3 ]).
   (* teardown *)
   all: try (apply maybe_close_inv; destruct I as [N E]; constructor; auto).
 Qed.
@@ -159,12 +163,31 @@ Proof. intros v gs s tr k E. pose proof (run_inv v gs) as I. rewrite E in I. app
 
 (* cancel() ends only that task *)
 Theorem cancel_only_that_task : forall v s k j, j <> k -> ph s = Open ->
+  oncancel_of s k = None \/ swallowed v = true ->
   tstate_of (fst (fire v s (GCancel k))) j = tstate_of s j.
 Proof.
-  intros v s k j N P. unfold fire. rewrite P. destruct (tstate_of s k) eqn:E; auto.
-  unfold maybe_close. simpl. rewrite set_t_ph, P. simpl.
-  change (tstate_of (remove_handle (set_t s k TEnded) k) j) with (tstate_of (set_t s k TEnded) j).
-  now apply tstate_set_other.
+  intros v s k j N P W. unfold fire. rewrite P. destruct (tstate_of s k) eqn:E; auto.
+  destruct (oncancel_of s k) as [e|] eqn:Oc.
+  - destruct W as [W|W]; [discriminate|]. unfold finish_task. simpl. rewrite W.
+    unfold maybe_close. simpl. rewrite set_t_ph, P. simpl.
+    change (tstate_of (remove_handle (set_t s k TEnded) k) j) with (tstate_of (set_t s k TEnded) j).
+    now apply tstate_set_other.
+  - unfold maybe_close. simpl. rewrite set_t_ph, P. simpl.
+    change (tstate_of (remove_handle (set_t s k TEnded) k) j) with (tstate_of (set_t s k TEnded) j).
+    now apply tstate_set_other.
+Qed.
+
+(* ... and an Exception escaping the cancelled task is handled like any other: handler consulted
+   once, propagates unless swallowed *)
+Theorem cancelled_task_raising : forall v s k e n, ph s = Open -> tstate_of s k = TRun n -> oncancel_of s k = Some e ->
+  (swallowed v = false -> ph (fst (fire v s (GCancel k))) = Crashed e) /\
+  (forall verdict, v = Some verdict -> In (Handler k e) (snd (fire v s (GCancel k)))).
+Proof.
+  intros v s k e n P R Oc. unfold fire. rewrite P, R, Oc. unfold finish_task. simpl. split.
+  - intro W. rewrite W. reflexivity.
+  - intros verdict ->. destruct verdict; simpl.
+    + destruct (maybe_close _); simpl. auto.
+    + auto.
 Qed.
 
 (* tearing the owner down never cancels a task: it changes no task state, and the owner's block
